@@ -1569,3 +1569,198 @@ def propagation(repo, tier):
     o["replay_hint"] = {"family": "propagate"}
     obls.append(o)
     return {"obligations": obls, "functions": []}
+
+
+# ========================================================================= the configured limits (state anchor) ==
+GIB = 1024 ** 3
+SPEC_DEFAULTS = {"max_entries": 50000, "max_total_uncompressed_bytes": 4 * GIB, "max_single_uncompressed_bytes": 1 * GIB,
+                 "max_total_compression_ratio": 200, "max_entry_compression_ratio": 500}      # the property's `state` anchor
+GUARD_FUNCTIONS = ("validate_zipfile", "open_zipfile", "validate_zip_bytesio")
+
+
+def const_value(m, e, depth=0):
+    """Value of a constant expression of the real module (literals, arithmetic, module-level names, int()/float()); raises
+    LookupError for anything else."""
+    import operator
+    if depth > 12:
+        raise LookupError("too deep")
+    if isinstance(e, ast.Constant) and isinstance(e.value, (int, float)) and not isinstance(e.value, bool):
+        return e.value
+    if isinstance(e, ast.Name) and e.id in m.assigns:
+        return const_value(m, m.assigns[e.id], depth + 1)
+    ops = {ast.Add: operator.add, ast.Sub: operator.sub, ast.Mult: operator.mul, ast.Pow: operator.pow, ast.FloorDiv: operator.floordiv,
+           ast.Div: operator.truediv, ast.LShift: operator.lshift, ast.BitOr: operator.or_, ast.Mod: operator.mod}
+    if isinstance(e, ast.BinOp) and type(e.op) in ops:
+        a, b = const_value(m, e.left, depth + 1), const_value(m, e.right, depth + 1)
+        if isinstance(e.op, (ast.Pow, ast.LShift)) and abs(b) > 200:
+            raise LookupError("exponent too large")
+        return ops[type(e.op)](a, b)
+    if isinstance(e, ast.UnaryOp) and isinstance(e.op, (ast.USub, ast.UAdd)):
+        v = const_value(m, e.operand, depth + 1)
+        return -v if isinstance(e.op, ast.USub) else v
+    if isinstance(e, ast.Call) and isinstance(e.func, ast.Name) and e.func.id in ("int", "float") and len(e.args) == 1 and not e.keywords:
+        return {"int": int, "float": float}[e.func.id](const_value(m, e.args[0], depth + 1))
+    if isinstance(e, ast.Call) and (dotted(e.func) or "").split(".")[-1] == "field" and not e.args and len(e.keywords) >= 1 \
+            and m.imports.get((dotted(e.func) or "").split(".")[0], "").split(".")[0] == "dataclasses":
+        kw = {k.arg: k.value for k in e.keywords}
+        if "default" in kw and not ({"default_factory", "init"} & set(kw)):
+            return const_value(m, kw["default"], depth + 1)      # dataclasses.field(default=X, ...): the field default is X
+    raise LookupError(f"not a constant expression: {ast.unparse(e)[:60]}")
+
+
+def configuration(repo, tier):
+    """"...checked against the configured limits": (1) the default configuration is the documented one -- every field default of
+    ZipBombLimits, evaluated from the real class body, equals the property's value; DEFAULT_ZIP_BOMB_LIMITS is that default
+    configuration; every `limits` parameter of the guard functions defaults to it.  (2) every call of a guard function inside
+    the package uses the configured limits: a function that has a `limits` parameter of its own forwards it, any other caller
+    passes none (the default) or the default object."""
+    pkg = Pkg(repo)
+    obls = []
+    hint = {"family": "limits"}
+
+    def emit(oid, status, detail, witness=None):
+        o = ground_obligation(oid, status == "proved", detail, "zip_bomb.py", kind="config", definite=(status == "refuted"))
+        o["replay_hint"] = dict(hint)
+        if witness:
+            o["witness"] = witness
+        obls.append(o)
+    m = pkg.mods.get(ZB)
+    cls = m.classes.get("ZipBombLimits") if m is not None else None
+
+    def limits_expr_kind(e):
+        """"default" when the expression certainly denotes the default configuration, else a description."""
+        if isinstance(e, ast.Name) and e.id == "DEFAULT_ZIP_BOMB_LIMITS":
+            return "default"
+        if isinstance(e, ast.Attribute) and e.attr == "DEFAULT_ZIP_BOMB_LIMITS":
+            return "default"
+        if isinstance(e, ast.Call) and (dotted(e.func) or "").split(".")[-1] == "ZipBombLimits" and not e.args and not e.keywords:
+            return "default"
+        return ast.unparse(e)[:60]
+    def none_means_default(fnode, pname="limits"):
+        """True when `pname=None` stands for the default configuration in this function: the parameter is rebound only by
+        entry normalisations -- `if p is None: p = D`, `p = p or D`, `p = D if p is None else p`, `p = p if p is not None else D`
+        with D the default configuration -- which are top-level statements of the body, and no statement before the first
+        of them reads p.  (The configuration class has no __bool__/__len__: `p or D` tests for None.)"""
+        def is_p(e):
+            return isinstance(e, ast.Name) and e.id == pname
+
+        def is_none_test(t, negated=False):
+            return isinstance(t, ast.Compare) and len(t.ops) == 1 and isinstance(t.ops[0], ast.IsNot if negated else ast.Is) and is_p(t.left) \
+                and isinstance(t.comparators[0], ast.Constant) and t.comparators[0].value is None
+
+        def is_norm(st):
+            if isinstance(st, ast.If) and is_none_test(st.test) and not st.orelse and len(st.body) == 1:
+                a = st.body[0]
+                return isinstance(a, ast.Assign) and len(a.targets) == 1 and is_p(a.targets[0]) and limits_expr_kind(a.value) == "default"
+            if isinstance(st, ast.Assign) and len(st.targets) == 1 and is_p(st.targets[0]):
+                v = st.value
+                if isinstance(v, ast.BoolOp) and isinstance(v.op, ast.Or) and len(v.values) == 2 and is_p(v.values[0]):
+                    return limits_expr_kind(v.values[1]) == "default" and not (cls is not None and any(
+                        isinstance(n, ast.FunctionDef) and n.name in ("__bool__", "__len__") for n in cls.body))
+                if isinstance(v, ast.IfExp):
+                    if is_none_test(v.test) and is_p(v.orelse):
+                        return limits_expr_kind(v.body) == "default"
+                    if is_none_test(v.test, negated=True) and is_p(v.body):
+                        return limits_expr_kind(v.orelse) == "default"
+            return False
+        norms = [st for st in fnode.body if is_norm(st)]
+        if not norms:
+            return False
+        inside = {id(x) for st in norms for x in ast.walk(st)}
+        for n in own_nodes(fnode):
+            if isinstance(n, ast.Name) and n.id == pname and isinstance(n.ctx, (ast.Store, ast.Del)) and id(n) not in inside:
+                return False
+        for st in fnode.body[:fnode.body.index(norms[0])]:
+            if any(isinstance(x, ast.Name) and x.id == pname for x in ast.walk(st)):
+                return False
+        return True
+    try:
+        fields = {}
+        for n in (cls.body if cls is not None else []):
+            if isinstance(n, ast.AnnAssign) and isinstance(n.target, ast.Name) and n.value is not None:
+                fields[n.target.id] = n.value
+            elif isinstance(n, ast.Assign) and len(n.targets) == 1 and isinstance(n.targets[0], ast.Name):
+                fields[n.targets[0].id] = n.value
+        own_init = cls is not None and any(isinstance(n, ast.FunctionDef) and n.name in ("__init__", "__post_init__", "__new__") for n in cls.body)
+        for fld, want in SPEC_DEFAULTS.items():
+            oid = f"C11/zip_bomb.py::ZipBombLimits/defaults#{fld}"
+            if fld not in fields or own_init:
+                emit(oid, "unknown", "field default not found as a class-level constant" if not own_init else "the class customises its construction")
+                continue
+            try:
+                got = const_value(m, fields[fld])
+            except LookupError as e:
+                emit(oid, "unknown", str(e))
+                continue
+            if got == want:
+                emit(oid, "proved", f"{ast.unparse(fields[fld])[:40]} == {want}")
+            else:
+                emit(oid, "refuted", f"default `{ast.unparse(fields[fld])[:40]}` evaluates to {got}, the documented configuration says {want}",
+                     {"field": fld, "value": got, "documented": want})
+        oid = "C11/zip_bomb.py::DEFAULT_ZIP_BOMB_LIMITS/defaults#is-the-default-configuration"
+        dv = m.assigns.get("DEFAULT_ZIP_BOMB_LIMITS") if m is not None else None
+        rebinds = [n for n in ast.walk(m.tree) if isinstance(n, ast.Name) and n.id == "DEFAULT_ZIP_BOMB_LIMITS" and isinstance(n.ctx, ast.Store)] if m else []
+        if dv is None:
+            emit(oid, "unknown", "DEFAULT_ZIP_BOMB_LIMITS not found")
+        elif len(rebinds) == 1 and isinstance(dv, ast.Call) and (dotted(dv.func) or "").split(".")[-1] == "ZipBombLimits" and not dv.args and not dv.keywords:
+            emit(oid, "proved", "ZipBombLimits()")
+        elif len(rebinds) == 1 and isinstance(dv, ast.Call) and (dotted(dv.func) or "").split(".")[-1] == "ZipBombLimits" and not dv.args:
+            bad = []
+            try:
+                for k in dv.keywords:
+                    if k.arg not in SPEC_DEFAULTS or const_value(m, k.value) != SPEC_DEFAULTS[k.arg]:
+                        bad.append(f"{k.arg}={ast.unparse(k.value)[:30]}")
+                emit(oid, "refuted" if bad else "proved", "; ".join(bad) or ast.unparse(dv)[:80])
+            except LookupError as e:
+                emit(oid, "unknown", str(e))
+        else:
+            emit(oid, "unknown", f"bound {len(rebinds)} time(s) to `{ast.unparse(dv)[:60]}`")
+        for fn in GUARD_FUNCTIONS:
+            oid = f"C11/zip_bomb.py::{fn}/defaults#limits-parameter-defaults-to-the-default-configuration"
+            node = m.functions.get(fn) if m is not None else None
+            if node is None:
+                emit(oid, "unknown", f"{fn} not found")
+                continue
+            a = node.args
+            dflt = None
+            for arg, d in list(zip(a.kwonlyargs, a.kw_defaults)) + list(zip((a.posonlyargs + a.args)[::-1], a.defaults[::-1])):
+                if arg.arg == "limits":
+                    dflt = d
+            if dflt is None:
+                emit(oid, "unknown", "no `limits` parameter with a default")
+            elif limits_expr_kind(dflt) == "default":
+                emit(oid, "proved", ast.unparse(dflt))
+            elif isinstance(dflt, ast.Constant) and dflt.value is None and none_means_default(node):
+                emit(oid, "proved", "None, replaced by the default configuration on entry")
+            else:
+                emit(oid, "unknown", f"default is `{limits_expr_kind(dflt)}`")
+    except Exception as e:  # noqa
+        emit("C11/zip_bomb.py::ZipBombLimits/defaults#analysis", "unknown", f"analysis does not handle this shape ({type(e).__name__}: {e})")
+    # (2) call sites
+    oid = "C11/package/policy#guard-call-sites-use-the-configured-limits"
+    try:
+        soft, n = [], 0
+        for fn in GUARD_FUNCTIONS:
+            if m is None or fn not in m.functions:
+                continue
+            for (f, q, call, bound) in pkg.call_sites((ZB, fn)):
+                n += 1
+                caller = pkg.fn((f, q))
+                arg = arg_for_param(m.functions[fn], call, "limits", bound)
+                star = any(isinstance(x, ast.Starred) for x in call.args) or any(k.arg is None for k in call.keywords)
+                own = "limits" in params_of(caller)
+                where = f"{f}:{call.lineno} {q} -> {fn}"
+                if star:
+                    soft.append(f"{where}: arguments passed through * / **")
+                elif own:
+                    ok = isinstance(arg, ast.Name) and arg.id == "limits" and ("limits" not in pkg.bindings(caller) or none_means_default(caller))
+                    if not ok:
+                        soft.append(f"{where}: the caller's own `limits` is not forwarded (passes {ast.unparse(arg)[:40] if arg is not None else 'nothing: the default'})")
+                elif arg is not None and limits_expr_kind(arg) != "default":
+                    soft.append(f"{where}: passes limits={limits_expr_kind(arg)}")
+        o = ground_obligation(oid, not soft and n >= 4, "; ".join(soft)[:900] or f"{n} call sites", "package", kind="policy", definite=False)
+    except Exception as e:  # noqa
+        o = ground_obligation(oid, False, f"analysis does not handle this shape ({type(e).__name__}: {e})", "package", kind="policy", definite=False)
+    o["replay_hint"] = dict(hint)
+    obls.append(o)
+    return {"obligations": obls, "functions": []}
